@@ -24,6 +24,7 @@ EXPLANATION = (
     "next branch; sub-queries' source columns are attributed within the branch's own table group; R02.5 the late resolution of an unqualified column over several relations keeps every "
     "candidate that defines it (no first-match selection; = R13.4); R02.7 positions: the write-column list is ordered by the recorded position alone, and a list read by position inside one iteration of a loop is rebuilt in that iteration; R02.6 qualifier and column of a reference are read from the parse tree, not by splitting its text at '.' (= R16.5). Does not decide: positional wiring across "
     "set-operation branches as values, qualifier resolution beyond precedence, naming of un-aliased expressions."
+    ' R02.8 (= R06.4) column identity compares the owner object. The scope-map clauses also require every qualifier resolution (to_source_columns) to use the map of the one builder.'
 )
 RULE_TEXT = "one obligation per type-table member demanded by the grammar, per scope-map operand, per container used in the per-branch loop, per precedence site"
 
@@ -216,7 +217,8 @@ def rules(ctx: Ctx) -> None:
             pn = key.args.args[0].arg
             body = key.body
             # the sorted elements are tuples (column, position): the key is exactly the position component
-            elts = [v for v in prog.value_sources(wc, k.args[0])] if k.args else []
+            what = k.args[0] if k.args and isinstance(k.func, ast.Name) else k.func.value if isinstance(k.func, ast.Attribute) else None  # sorted(X, ..) / X.sort(..)
+            elts = [v for v in prog.value_sources(wc, what)] if what is not None else []
             comp = next((v for v in elts if isinstance(v, (ast.ListComp, ast.GeneratorExp)) and isinstance(v.elt, ast.Tuple)), None)
             pos_idx = None
             if comp is not None:
